@@ -72,3 +72,24 @@ Theorem C07_legacy_refuted : exists g p1 p2 k b x y,
   /\ ~ adjacent_frags (sc_rows (fst p1)) x y /\ ~ adjacent_frags (sc_rows (fst p2)) x y.
 Proof. exact legacy_leftover_refuted. Qed.
 Print Assumptions C07_legacy_refuted.
+
+(* GAP PROVENANCE, end to end through [remap], for EVERY input, EVERY Pretext
+   map (garbage included), every texel size and every configuration: a gap row
+   of an output scaffold is either the configured join gap or a gap row (same
+   length, same type) of the input assembly -- the program never invents,
+   resizes or retypes a gap *)
+From Tola Require Proofs.GapProvenance.
+Theorem C07_gap_provenance : forall c g prefix bpt input pretext o,
+  remap c g prefix bpt input pretext = Ok o ->
+  forall a sc gp, In a (out_asms o) -> In sc (oa_scaffolds a) -> In (RG gp) (sc_rows sc) ->
+    gp = g \/ exists isc, In isc input /\ In (RG gp) (snd isc).
+Proof. exact Proofs.GapProvenance.gap_provenance. Qed.
+Print Assumptions C07_gap_provenance.
+
+(* the overlap results themselves (before fusing) hold input gaps only *)
+Theorem C07_results_hold_input_gaps : forall c g prefix bpt input pretext rs,
+  remap_to_input c g prefix bpt input pretext = Ok rs ->
+  forall r gp, In r (b_store (rs_b rs)) -> In (RG gp) (o_rows r) ->
+    exists isc, In isc input /\ In (RG gp) (snd isc).
+Proof. exact Proofs.GapProvenance.gap_provenance_results. Qed.
+Print Assumptions C07_results_hold_input_gaps.
